@@ -5,7 +5,7 @@ real mockery `template: testify` (goimports; one mock per interface and unroll-v
 setting) -> harness/go/drv_testify linked with the fresh mocks replays seeded histories ->
 observations are (i) judged by a model-free oracle that evaluates the property text and
 (ii) compared inside Coq with Mock/Testify.v (Harness/C03.v check_case)."""
-import json, random, re, shutil
+import json, random, re, shutil, zlib
 from common import *
 import gen_pkgs
 
@@ -48,9 +48,23 @@ def inst_type(c):
     return None
 
 
-def mock_specs(m):
-    """[(struct name, interface, unroll setting: True / False / None=unset, instantiation or '')]"""
-    out = []
+def ctor_name(struct):
+    return ("new" if struct[0].islower() else "New") + struct[0].upper() + struct[1:]
+
+
+T_, F_, U_, O_ = "true", "false", "unset", "unset-other-key"
+# settings of the mocks that share ONE output file.  U = template-data absent at every level,
+# O = template-data present without the key.  [T,U] and [U,T] together guarantee, whatever order
+# mockery renders the mocks of a file in, a file in which an unset mock follows an unrolled one.
+PATTERNS = [[T_, U_], [U_, T_], [T_, U_, T_], [U_, U_, T_], [F_, T_, U_], [T_, F_, U_], [T_, O_], [O_, T_], [T_, O_, T_], [F_, T_, O_, T_]]
+
+
+def mock_specs(m, explicit_false=False, groups=True):
+    """One dict per mock: struct name, interface, unroll-variadic setting (True / False / None = unset),
+    tdata ('none' | 'other' for unset mocks), output file stem, instantiation.
+    Regular mocks have a file of their own; group mocks share a file with 1-3 others whose
+    settings differ (state leaking from one mock of a file to the next must be visible)."""
+    out, usable = [], []
     for i in m["ifaces"]:
         inst = ""
         if i["tparams"]:
@@ -58,12 +72,37 @@ def mock_specs(m):
             if any(t is None for t in ts):
                 continue
             inst = "[" + ", ".join(ts) + "]"
-        for suffix, unroll in (("", None), ("U", True)):
-            out.append({"struct": "Mock" + i["name"] + suffix, "iface": i, "unroll": unroll, "inst": inst})
+        usable.append((i, inst))
+        for suffix, unroll in (("", False if explicit_false else None), ("U", True)):
+            st = "Mock" + i["name"] + suffix
+            out.append({"struct": st, "iface": i, "unroll": unroll, "tdata": "none", "file": st, "inst": inst, "group": None})
+    if not groups or not usable:
+        return out
+    r = random.Random(zlib.crc32(json.dumps(m["ifaces"], sort_keys=True).encode()))
+    variadic = [u for u in usable if any(mm["sig"]["variadic"] for mm in u[0]["methods"])]
+    plans = []          # (pattern, [iface choices])
+    if any(i["name"] == "EdgeRoll" for i, _ in usable):            # corpus module: every pattern, deterministically
+        byname = {i["name"]: (i, inst) for i, inst in usable}
+        for pat in PATTERNS[:6]:
+            plans.append((pat, [byname["EdgeRoll"]] * len(pat)))
+        mix = ["EdgeVar0", "EdgeVar2", "EdgeRoll", "EdgeNames", "EdgeNil", "EdgeMisc"]
+        for k, pat in enumerate(PATTERNS[6:] + PATTERNS[:2]):
+            plans.append((pat, [byname[mix[(k + j) % len(mix)]] for j in range(len(pat))]))
+    else:
+        for _ in range(2):
+            pat = r.choice(PATTERNS)
+            pool = variadic if (variadic and r.random() < 0.8) else usable
+            plans.append((pat, [r.choice(pool) if r.random() < 0.7 else r.choice(usable) for _ in pat]))
+    for g, (pat, choice) in enumerate(plans):
+        for k, (setting, (i, inst)) in enumerate(zip(pat, choice)):
+            lower = (g + k) % 3 == 1                                # some struct names start in lower case: constructor new...
+            st = "%sock%sG%d%s" % ("m" if lower else "M", i["name"], g, "abcd"[k])
+            out.append({"struct": st, "iface": i, "unroll": True if setting == T_ else False if setting == F_ else None,
+                        "tdata": "other" if setting == O_ else "none", "file": "grp%d" % g, "inst": inst, "group": (g, pat)})
     return out
 
 
-def write_config(root, specs, explicit_false):
+def write_config(root, specs):
     lines = ["template: testify", "formatter: goimports", "force-file-write: true", 'dir: "{{.InterfaceDir}}"',
              'pkgname: "{{.SrcPackageName}}"', 'filename: "mock_{{.StructName}}.go"', "packages:", "  %s/src:" % MOD, "    interfaces:"]
     by_iface = {}
@@ -73,10 +112,11 @@ def write_config(root, specs, explicit_false):
         lines += ["      %s:" % name, "        configs:"]
         for s in ss:
             lines.append("          - structname: %s" % s["struct"])
-            if s["unroll"] is True:
-                lines += ["            template-data:", "              unroll-variadic: true"]
-            elif explicit_false:
-                lines += ["            template-data:", "              unroll-variadic: false"]
+            lines.append("            filename: mock_%s.go" % s["file"])
+            if s["unroll"] is not None:
+                lines += ["            template-data:", "              unroll-variadic: %s" % ("true" if s["unroll"] else "false")]
+            elif s["tdata"] == "other":
+                lines += ["            template-data:", '              mock-build-tags: ""']
     (root / ".mockery.yml").write_text("\n".join(lines) + "\n")
 
 
@@ -87,48 +127,55 @@ def build_module(ctx, idx, m, explicit_false):
     gen_pkgs.write_module(m, root)
     shutil.copy(REPO / "go.sum", root / "go.sum")
     env = go_env({"GOFLAGS": "-mod=mod"})
-    specs = mock_specs(m)
+    specs = mock_specs(m, explicit_false)
     dropped = []
-    # --- mockery (a failing mock aborts the run: drop it and run again)
+
+    def drop_file(stem, stage, error):
+        nonlocal specs
+        for s in [x for x in specs if x["file"] == stem]:
+            dropped.append({"spec": s, "stage": stage, "error": error})
+        specs = [x for x in specs if x["file"] != stem]
+
+    # --- mockery (a failing file aborts the run: drop its mocks and run again)
     for _ in range(len(specs) + 1):
-        write_config(root, specs, explicit_false)
+        write_config(root, specs)
         p = run([ctx.bins["mockery"]], cwd=root, env=env, timeout=300)
         if p.returncode == 0:
             break
         log = (p.stdout + p.stderr).decode(errors="replace")
         errline = ([l for l in log.splitlines() if " ERR " in l and "file=" in l] or [""])[0]
         mm = re.search(r"file=\S*?mock_(\w+)\.go", errline)
-        bad = [s for s in specs if mm and s["struct"] == mm.group(1)]
-        if not bad:
+        if not mm or not any(s["file"] == mm.group(1) for s in specs):
             raise RuntimeError("mockery failed without naming a mock file:\n" + log[-1500:])
         err = re.search(r'error="([^"]*)"', errline)
-        dropped.append({"spec": bad[0], "stage": "mockery", "error": err.group(1) if err else log[-300:]})
-        specs = [s for s in specs if s is not bad[0]]
+        drop_file(mm.group(1), "mockery", err.group(1) if err else log[-300:])
         for f in (root / "src").glob("mock_*.go"):
             f.unlink()
-    # --- driver
+    # --- registry (inside the package: constructors of lower-case struct names are unexported) + driver
     (root / "drv").mkdir()
     shutil.copy(VERIF / "harness" / "go" / "drv_testify" / "main.go", root / "drv" / "main.go")
-    for _ in range(6):
-        imp = 'import (\n\tsrc "%s/src"\n%s)\n' % (MOD, '\tio "io"\n' if any("io." in s["inst"] for s in specs) else "")
-        reg = "package main\n\n" + imp + "\nfunc init() {\n" + "".join(
-            '\tregister("%s", src.New%s%s)\n' % (s["struct"], s["struct"], s["inst"]) for s in specs) + "}\n"
-        if not specs:
-            reg = "package main\n"
-        (root / "drv" / "reg.go").write_text(reg)
+    (root / "drv" / "reg.go").write_text('package main\n\nimport src "%s/src"\n\nfunc init() {\n\tfor k, v := range src.VerifCtors {\n\t\tregister(k, v)\n\t}\n}\n' % MOD)
+    for _ in range(8):
+        imp = 'import io "io"\n\n' if any("io." in s["inst"] for s in specs) else ""
+        (root / "src" / "zz_verif_reg.go").write_text(
+            "package src\n\n" + imp + "var VerifCtors = map[string]interface{}{\n" +
+            "".join('\t"%s": %s%s,\n' % (s["struct"], ctor_name(s["struct"]), s["inst"]) for s in specs) + "}\n")
         p = run(["go", "build", "-o", str(root / "drvbin"), "./drv"], cwd=root, env=env, timeout=900)
         if p.returncode == 0:
             break
         log = p.stderr.decode(errors="replace")
-        names = set(re.findall(r"src/mock_(\w+)\.go:\d+", log))
-        bad = [s for s in specs if s["struct"] in names]
-        if not bad:
+        stems = set(re.findall(r"src/mock_(\w+)\.go:\d+", log))
+        undefined = set(re.findall(r"zz_verif_reg\.go:\d+:\d+: undefined: (\w+)", log))
+        bad_ctor = [s for s in specs if ctor_name(s["struct"]) in undefined and s["file"] not in stems]
+        if not stems and not bad_ctor:
             raise RuntimeError("driver build failed:\n" + log[-2500:])
-        for s in bad:
-            first = [l for l in log.splitlines() if "mock_%s.go" % s["struct"] in l][:2]
-            dropped.append({"spec": s, "stage": "compile", "error": " | ".join(first)})
-            (root / "src" / ("mock_%s.go" % s["struct"])).unlink()
-        specs = [s for s in specs if s not in bad]
+        for stem in sorted(stems):
+            first = [l for l in log.splitlines() if "mock_%s.go" % stem in l][:2]
+            drop_file(stem, "compile", " | ".join(first))
+            (root / "src" / ("mock_%s.go" % stem)).unlink()
+        for s in bad_ctor:
+            dropped.append({"spec": s, "stage": "constructor", "error": "undefined: %s (the generated constructor has another name)" % ctor_name(s["struct"])})
+        specs = [s for s in specs if s not in bad_ctor]
     else:
         raise RuntimeError("driver build did not converge")
     desc = {}
@@ -300,7 +347,7 @@ def call_for(rng, m, unroll, exp):
     return {"op": "call", "m": m["name"], "args": args}
 
 
-def gen_history(rng, spec, table, style=None):
+def gen_history(rng, spec, table, style=None, prefer_variadic=False):
     unroll = spec["unroll"] is True
     ctor = rng.random() < 0.96
     counter = [0]
@@ -308,6 +355,9 @@ def gen_history(rng, spec, table, style=None):
         counter[0] += 1
         return counter[0]
     ms = rng.sample(table, min(len(table), rng.choice([1, 1, 2, 3])))
+    va = [m for m in table if m["variadic"]]
+    if prefer_variadic and va and rng.random() < 0.8 and not any(m["variadic"] for m in ms):
+        ms[0] = rng.choice(va)             # mocks sharing a file: the mode of THIS mock is what is being checked
     steps, exps = [], []
     n = rng.randint(4, 12)
     while len(steps) < n:
@@ -732,6 +782,8 @@ def owned_class(d):
     """A mock that could not be generated / compiled: is it one of the failures C03 owns (input
     class AND symptom)?  Everything else (name collisions, invalid identifiers, ...) belongs to C01."""
     spec = d["spec"]
+    if d["stage"] == "constructor":
+        return "the constructor of %s is not %s" % (spec["struct"], ctor_name(spec["struct"]))
     for mm in spec["iface"]["methods"]:
         sg = mm["sig"]
         if sg["variadic"] and spec["unroll"] is True and len(sg["results"]) >= 2 and d["stage"] == "compile" and "non-variadic" in d["error"]:
@@ -777,7 +829,10 @@ def check(ctx, only=None):
     def do_module(k):
         name, m, explicit_false = mods[k]
         rng = random.Random(seeds[k])
+        import time as _t
+        t0 = _t.time()
         mod = build_module(ctx, k, m, explicit_false)
+        t1 = _t.time()
         mod["name"], mod["module"], mod["explicit_false"] = name, m, explicit_false
         mod["items"] = []           # (spec, table, history)
         for spec in mod["specs"]:
@@ -787,13 +842,18 @@ def check(ctx, only=None):
             if only is not None:
                 hs = [o2 for o in only if o["module_name"] == name for o2 in o["histories"] if o2["mock"] == spec["struct"]]
             else:
-                hs = [gen_history(rng, spec, table) for _ in range(per_mock * (3 if name == "edge" else 1))]
+                n_h = per_mock * (3 if (name == "edge" and spec["group"] is None) else 1)
+                hs = [gen_history(rng, spec, table, prefer_variadic=spec["group"] is not None) for _ in range(n_h)]
             for h in hs:
                 mod["items"].append((spec, table, h))
         mod["obs"] = run_histories(mod, [h for _, _, h in mod["items"]]) if mod["items"] else []
+        mod["secs"] = [round(x, 1) for x in (t1 - t0, _t.time() - t1)]
         return mod
 
+    import time as _t
+    t_start = _t.time()
     results = pmap(do_module, range(len(mods)), workers=min(JOBS, 8))
+    timing = {"modules_s": round(_t.time() - t_start, 1), "per_module_s": [m.get("secs") for m in results]}
 
     # ---- mocks that could not be generated / compiled
     dropped_other, owned_fail = [], []
@@ -805,6 +865,7 @@ def check(ctx, only=None):
         rp = ctx.write_replay("nomock-%s-%s" % (mod["name"], d["spec"]["struct"]), {
             "what": "mockery produced no usable mock (%s stage) for an interface in C03's domain: %s" % (d["stage"], cls),
             "error": d["error"], "interface": d["spec"]["iface"], "unroll-variadic": d["spec"]["unroll"],
+            "output_file": "mock_%s.go" % d["spec"]["file"], "settings_of_the_mocks_in_that_file": (d["spec"]["group"] or [None, None])[1],
             "module_name": mod["name"], "module": mod["module"], "explicit_false": mod["explicit_false"], "histories": []})
         ctx.violation(rp)
 
@@ -821,20 +882,24 @@ def check(ctx, only=None):
         if e:
             oracle_fail[i] = e
     terms = [case_term(h, ob, spec, table) for (_, spec, table, h, ob) in flat]
+    t_c = _t.time()
     bad, errs = coq_mismatches(ctx, HARNESS, terms, shard=120) if terms else ([], [])
+    timing["coq_s"] = round(_t.time() - t_c, 1)
 
     reported = set()
     for i in sorted(oracle_fail):
         mod, spec, table, h, ob = flat[i]
-        key = (spec["iface"]["name"], spec["unroll"] is True, symptom_class(oracle_fail[i][0]))
+        key = (spec["iface"]["name"], spec["unroll"] is True, spec["group"] is not None, symptom_class(oracle_fail[i][0]))
         if key in reported or len(reported) >= 8:
             continue
         reported.add(key)
-        cls = key[2]
+        cls = key[3]
         small = shrink_history(mod, spec, table, h, lambda hh, oo: any(symptom_class(x) == cls for x in oracle(hh, oo, spec, table)[0]))
         so = run_histories(mod, [small])[0]
         rp = ctx.write_replay("oracle-%s-%s-%d" % (spec["struct"], cls, i), {
             "what": oracle(small, so, spec, table)[0] or oracle_fail[i], "mock": spec["struct"], "unroll-variadic": spec["unroll"],
+            "template-data": spec["tdata"], "output_file": "mock_%s.go" % spec["file"],
+            "settings_of_the_mocks_in_that_file": (spec["group"] or [None, None])[1],
             "interface": spec["iface"], "history": small, "observed": so,
             "module_name": mod["name"], "module": mod["module"], "explicit_false": mod["explicit_false"], "histories": [small]})
         ctx.violation(rp)
@@ -862,7 +927,7 @@ def check(ctx, only=None):
     # ---- evidence
     hist = {"mocks": sum(len(m["specs"]) for m in results), "histories": len(flat), "steps": sum(len(h["steps"]) for _, _, _, h, _ in flat),
             "unroll_true": sum(1 for _, s, _, _, _ in flat if s["unroll"] is True), "no_ctor": sum(1 for _, _, _, h, _ in flat if not h["ctor"]),
-            "methods": {}, "position_types": {}, "generic_mocks": 0, "setup_styles": {}, "outcomes": {}, "dropped_not_owned": [{"mock": d["spec"]["struct"], "stage": d["stage"], "error": d["error"][:200]} for _, d, _ in dropped_other][:20],
+            "methods": {}, "position_types": {}, "generic_mocks": 0, "mocks_sharing_a_file": 0, "shared_file_settings": {}, "lower_case_structs": 0, "setup_styles": {}, "outcomes": {}, "dropped_not_owned": [{"mock": d["spec"]["struct"], "stage": d["stage"], "error": d["error"][:200]} for _, d, _ in dropped_other][:20],
             "dropped_owned": len(owned_fail)}
     seen_m = set()
     for mod, spec, table, h, ob in flat:
@@ -877,6 +942,13 @@ def check(ctx, only=None):
                     hist["position_types"][k] = hist["position_types"].get(k, 0) + 1
             if spec["inst"]:
                 hist["generic_mocks"] += 1
+            if spec["group"] is not None:
+                hist["mocks_sharing_a_file"] += 1
+                k = "%s in %s" % ("true" if spec["unroll"] is True else "false" if spec["unroll"] is False else ("unset" if spec["tdata"] == "none" else "unset-other-key"),
+                                  ",".join(spec["group"][1]))
+                hist["shared_file_settings"][k] = hist["shared_file_settings"].get(k, 0) + 1
+            if spec["struct"][0].islower():
+                hist["lower_case_structs"] += 1
         for s, o in zip(h["steps"], ob):
             if s["op"] == "expect":
                 k = "+".join(su["s"] for su in s["setups"]) or "none"
@@ -890,7 +962,7 @@ def check(ctx, only=None):
     ctx.write_evidence(gate, 2 * len(flat), distinct,
                        "seeded histories (4-15 steps: EXPECT registrations in 6 setup styles with Once/Times, calls, cleanups) against freshly generated mocks of generated and hand-picked interfaces, both unroll-variadic settings; every history is judged by the model-free oracle and compared with the model in Coq; non-trivial = at least one call returned values or ran a callback; distinct by (mock, full history)",
                        samples, extra={"input_histogram": hist, "oracle_stats": stats, "model_mismatches": len(bad), "oracle_failures": len(oracle_fail),
-                                       "coq_errors": errs[:3]},
+                                       "coq_errors": errs[:3], "timing": timing},
                        assumptions=["values are built from small tokens injectively w.r.t. reflect.DeepEqual (driver drv_testify); interface-typed positions hold nil or the driver's token type only",
                                     "user callbacks/providers are functions returning scripted constants",
                                     "testify matchers other than mock.Anything, Maybe/WaitUntil/After/Unset/NotBefore are not exercised"])
